@@ -5,9 +5,9 @@ cd "$(dirname "$0")/.."
 tier=${1:-quick}; shift
 ids="$@"
 [ -z "$ids" ] && ids=$(/venv/bin/python -c "import json; print(' '.join(c['property_id'] for c in json.load(open('MANIFEST.json'))['checks']))")
-mkdir -p work/ev; : > work/ev/summary.log
+mkdir -p work/ev; : > work/ev/summary-$tier.log
 for id in $ids; do
-  ./check $id --tier $tier > work/ev/$id.out 2>&1; rc=$?
-  echo "$id check_exit=$rc $(tail -1 work/ev/$id.out | cut -c1-200) known-lines=$(grep -c '^KNOWN-FINDING' work/ev/$id.out) violation-lines=$(grep -c '^VIOLATION' work/ev/$id.out)" >> work/ev/summary.log
+  ./check $id --tier $tier > work/ev/$id-$tier.out 2>&1; rc=$?
+  echo "$id check_exit=$rc $(tail -1 work/ev/$id-$tier.out | cut -c1-200) known-lines=$(grep -c '^KNOWN-FINDING' work/ev/$id-$tier.out) violation-lines=$(grep -c '^VIOLATION' work/ev/$id-$tier.out)" >> work/ev/summary-$tier.log
 done
-echo ALLDONE >> work/ev/summary.log
+echo ALLDONE >> work/ev/summary-$tier.log
